@@ -12,6 +12,14 @@ HARNESSES = {
 _ENUM_CASES = 3 * (26 + 28 + 27 + 1)
 
 
+def _stages(tier):
+    # asan: only operations with non-finite reals and the known setSettings crash pattern are probed in a forked child (a fork of an ASan
+    # process costs ~4 ms); any other crash goes through the driver's crash isolation.  opt: every operation is probed.
+    a, o = (60000, 240000) if tier == 'thorough' else (2400, 8000)
+    return [dict(name='asan', harness='h_param', flavour='asan', cases=a, args={'probe': 'risky'}),
+            dict(name='opt', harness='h_param', flavour='opt', cases=o, args={'probe': 'all'})]
+
+
 def _minima(tier):
     q = tier == 'quick'
     return {
@@ -31,7 +39,7 @@ def _minima(tier):
         'ops.setSettings': 20000 if q else 600000,
         'ops.loadLP': 5000 if q else 150000,
         'oracle.rational_lp_checked': 5000 if q else 150000,
-        'probe.forks': 250000 if q else 7000000,
+        'probe.forks': 150000 if q else 4500000,
         'behaviour.iterlimit_checked': 60 if q else 2000,
         'behaviour.objsense_checked': 300 if q else 10000,
         'behaviour.verbosity_checked': 300 if q else 10000,
@@ -65,7 +73,7 @@ PROPS = {
                   'in a forked probe so that SIGFPE/SIGSEGV become keyed violations; C++ exceptions are caught and keyed; saved files are read '
                   'by an independent reader and re-loaded into a fresh object; behavioural probes (iteration limit, objective sense vs certified '
                   'optimum, verbosity 0 prints nothing, tolerances(), objective offset); ASan+UBSan flavour plus -O2 volume flavour',
-        stages=two_flavour('h_param', 2400, 8000, 40000, 240000),
+        stages=_stages,
         minima=_minima,
         eval_counter='cases', distinct_set='nontrivial',
         rule='case k < 246 -> complete enumeration: front end (k mod 3) x parameter (k div 3) x every value class, each class from several valid '
